@@ -65,10 +65,19 @@ class SampleRat(ai.RatEnv):
         ai.RatEnv.__init__(self)
         self.uniforms = []
 
+    TRUNCATIONS = {'int': 'trunc', 'math.floor': 'floor', 'numpy.floor': 'floor', 'math.trunc': 'trunc', 'numpy.trunc': 'trunc'}
+
     def rat(self, t):
         if t[0] == 'call' and t[1] in ai.UNIFORM_01 and not t[2] and not t[3]:
             name = 'u#%d' % len(self.uniforms)
             self.uniforms.append(name)
+            return Rat.sym(name)
+        if t[0] == 'call' and t[1] in self.TRUNCATIONS and len(t[2]) == 1 and not t[3]:
+            # int(x) truncates toward zero, floor(x) rounds down: an atom whose argument is remembered
+            if not hasattr(self, 'ints'):
+                self.ints = {}
+            name = 'int#%d' % len(self.ints)
+            self.ints[name] = (self.TRUNCATIONS[t[1]], self.rat(t[2][0]))
             return Rat.sym(name)
         return ai.RatEnv.rat(self, t)
 
@@ -167,8 +176,9 @@ def d1_intervals(ctx, idx):
             else:
                 w = _ctor_witness(paths)
                 if cls == 'IntegerRange' and w:
-                    r.violation(construct + ': order', '%s(start=%d, stop=%d) keeps start=%s > stop=%s: np.random.randint(low, high) '
-                                'raises ValueError for low >= high, so reversed bounds are not "irrelevant" any more'
+                    r.violation(construct + ': order', '%s(start=%d, stop=%d) keeps start=%s > stop=%s, but gen_sample relies on start <= stop '
+                                '(np.random.randint(low, high) raises ValueError for low >= high; a scaled uniform draw covers the wrong '
+                                'integers), so reversed bounds are not "irrelevant" any more'
                                 % (cls, w[0], w[1], w[2], w[3]), fi.loc, expected='start <= stop after construction',
                                 found='start=%s, stop=%s' % (w[2], w[3]))
                 elif cls == 'IntegerRange':
@@ -210,7 +220,7 @@ def d1_intervals(ctx, idx):
         v = p.value
         construct = 'IntegerRange.gen_sample'
         if not (v[0] == 'call' and v[1] in ('numpy.random.randint', 'random.randint', 'random.randrange')):
-            r.undecided(construct, 'returned value `%s` is not a randint draw' % ai.show(v), where)
+            _int_scaled_uniform(r, construct, v, where, ordered_after.get('IntegerRange'))
         else:
             kw = dict(v[3])
             names = ('low', 'high') if v[1].startswith('numpy') else ('a', 'b') if v[1] == 'random.randint' else ('start', 'stop')
@@ -238,6 +248,55 @@ def d1_intervals(ctx, idx):
                 elif pre:
                     r.undecided(construct + ': low < high', 'randint needs low < high; start <= stop is not established by the '
                                 'constructor (see D1.SWAP)', where)
+
+
+def _int_scaled_uniform(r, construct, v, where, ordered):
+    """Integer draws of the form  A + int(B*u + C)  with u uniform in [0, 1) (half-open!), A, B, C integer expressions in
+    start/stop: for B >= 0 and C >= 0 the argument ranges over [C, C + B), so its truncation takes exactly the values
+    C .. C + B - 1 (only C when B = 0), and the sample set is A + C .. A + C + B - 1."""
+    start, stop = Rat.sym('start'), Rat.sym('stop')
+    env = SampleRat()
+    try:
+        whole = env.rat(v)
+    except Unsupported as e:
+        r.undecided(construct, 'returned value `%s` is neither a randint draw nor an integer-scaled uniform draw (%s)' % (ai.show(v), e), where)
+        return
+    ints = getattr(env, 'ints', {})
+    if len(ints) != 1 or len(env.uniforms) != 1:
+        r.undecided(construct, 'returned value `%s` is not of the form A + int(B*u + C)' % ai.show(v), where)
+        return
+    iname, (mode, inner) = next(iter(ints.items()))
+    u = env.uniforms[0]
+    lin = whole.linear_in(iname)
+    inl = inner.linear_in(u)
+    if lin is None or inl is None or not (lin[0] == Rat.const(1)) or u in lin[1].symbols() or iname in lin[1].symbols():
+        r.undecided(construct, 'returned value `%s` is not of the form A + int(B*u + C)' % ai.show(v), where)
+        return
+    A, (B, C) = lin[1], inl
+    facts = Facts().assume_nonneg(stop - start)           # established by the constructor (D1.SWAP), start/stop are integers
+    if not ordered:
+        r.undecided(construct, 'the draw A + int(B*u + C) needs start <= stop, which the constructor does not establish (see D1.SWAP)', where)
+        return
+    sb, sc = facts.sign(B), facts.sign(C)
+    if sb not in ('pos', 'nonneg', 'zero') or (mode == 'trunc' and sc not in ('pos', 'nonneg', 'zero')):
+        r.undecided(construct, 'cannot order the scaled draw: B = %s, C = %s' % (B.text(), C.text()), where)
+        return
+    lo, hi = A + C, A + C + B - Rat.const(1)
+    if lo == start and hi == stop:
+        r.ok(construct, 'start + int((stop - start + 1)*u), u in [0, 1): exactly start..stop, both attainable', where)
+        r.ok(construct + ': low < high', 'B = %s >= 1 follows from start <= stop established by the constructor' % B.text(), where)
+        return
+    eg = lambda q: q.subs('start', Rat.const(2)).subs('stop', Rat.const(4)).text()     # noqa: E731
+    missing = []
+    if lo == start and (stop - hi) == Rat.const(1):
+        missing.append('the upper endpoint stop is never drawn: random_sample() lies in the half-open interval [0, 1), so '
+                       '(%s)*u < %s and its integer part is at most %s' % (B.text(), B.text(), (B - Rat.const(1)).text()))
+    elif hi == stop and (lo - start) == Rat.const(1):
+        missing.append('the lower endpoint start is never drawn')
+    r.violation(construct, 'the draw ranges over the integers %s..%s (exact: integer part of a uniform draw on [%s, %s)), not start..stop; '
+                'e.g. IntegerRange(start=2, stop=4) yields %s..%s%s' % (lo.text(), hi.text(), C.text(), (C + B).text(), eg(lo), eg(hi),
+                                                                      ('. ' + missing[0]) if missing else ''),
+                where, expected='start + int((stop - start + 1) * random_sample())  /  randint(start, stop + 1)', found=ai.show(v))
 
 
 # ----------------------------------------------------------------------------- D1 complex
@@ -391,7 +450,7 @@ def d2_random_function(ctx, idx):
     r_ar = ctx.rule('D2.ARITY', 'a drawn random function refuses a wrong argument count and is tagged nin = input_dim', floor=2)
     r_sh = ctx.rule('D2.SHAPE', 'the function returns a MathArray of length output_dim iff output_dim > 1, else a scalar', floor=2)
     r_bd = ctx.rule('D2.BOUND', 'values stay within center +/- amplitude: the divisor equals the number of summed sinusoids', floor=2)
-    r_fx = ctx.rule('D2.FIXED', 'the coefficients are drawn once, outside the returned function', floor=1)
+    r_fx = ctx.rule('D2.FIXED', 'the coefficients are drawn once, outside the returned function, whose results do not share a buffer', floor=2)
     fi = idx.func(RF + '.gen_sample')
     inner_paths = []
     with r_ar:
@@ -460,6 +519,8 @@ def d2_random_function(ctx, idx):
 
     with r_fx:
         for label, inner, va, qs, facts in inner_paths[:1]:
+            _returned_buffer(r_fx, fi, inner)
+        for label, inner, va, qs, facts in inner_paths[:1]:
             draws = _random_calls(inner.node, idx, inner.module)
             if draws:
                 n, d = draws[0]
@@ -488,6 +549,95 @@ def d2_random_function(ctx, idx):
                         other = g[3] if g[2] == ln else g[2]
                         subst[ln] = ai.RatEnv().rat(other)
                 (_shape if rule is r_sh else _bound)(rule, label, inner, q, facts, subst)
+
+
+VIEW_CALLS = {'MathArray', 'asarray', 'asanyarray', 'view', 'reshape', 'ravel', 'squeeze', 'transpose', 'atleast_1d', 'swapaxes'}
+FRESH_CALLS = {'array', 'copy', 'deepcopy', 'zeros', 'ones', 'empty', 'zeros_like', 'ones_like', 'empty_like', 'float', 'complex', 'int', 'list', 'tuple'}
+
+
+def _returned_buffer(r, outer, inner):
+    """A drawn function must be a *fixed* function: a value it returns may not alias an object that outlives the call
+    (a variable of the enclosing gen_sample captured by the closure) and is written in place by the function itself
+    (np.<ufunc>(..., out=buf), `buf op= x`, `buf[...] = x`): the next evaluation would change the value returned earlier.
+    MathArray(x) / np.asarray(x) / x.view() / x.reshape() / x.T / slices propagate aliasing; arithmetic results,
+    .copy(), np.array(x) and scalar conversions do not."""
+    from ..index import local_names
+    inner_locals = set()
+    a = inner.node.args
+    params = {x.arg for x in a.posonlyargs + a.args + a.kwonlyargs} | ({a.vararg.arg} if a.vararg else set()) | ({a.kwarg.arg} if a.kwarg else set())
+    stored = {n.id for n in walk_own(inner.node) if isinstance(n, ast.Name) and isinstance(n.ctx, ast.Store)}
+    outer_vars = local_names(outer.node) - params
+    alias = {}           # inner local -> set of captured outer variables it may alias
+    mutated = {}         # captured variable -> node of an in-place write
+
+    def al(e):
+        if isinstance(e, ast.Name):
+            if e.id in alias:
+                return set(alias[e.id])
+            if e.id in outer_vars and e.id not in stored and e.id not in params:
+                return {e.id}
+            return set()
+        if isinstance(e, ast.IfExp):
+            return al(e.body) | al(e.orelse)
+        if isinstance(e, ast.Attribute) and e.attr in ('T', 'real', 'imag', 'flat'):
+            return al(e.value)
+        if isinstance(e, ast.Subscript):
+            return al(e.value) if isinstance(e.slice, ast.Slice) or (isinstance(e.slice, ast.Tuple) and any(isinstance(x, ast.Slice) for x in e.slice.elts)) else set()
+        if isinstance(e, ast.Call):
+            for k in e.keywords:
+                if k.arg == 'out':
+                    return al(k.value)            # numpy returns the `out` object itself
+            name = nf.callee_name(e)
+            if name in FRESH_CALLS:
+                return set()
+            if name in VIEW_CALLS:
+                if isinstance(e.func, ast.Attribute) and not (isinstance(e.func.value, ast.Name) and e.func.value.id in ('np', 'numpy')):
+                    recv = al(e.func.value)
+                    if recv:
+                        return recv
+                return al(e.args[0]) if e.args else set()
+            return set()
+        return set()
+
+    stmts = [n for n in walk_own(inner.node) if isinstance(n, ast.stmt)]
+    returned = set()
+    ret_node = None
+    for st in stmts:
+        for c in [n for n in ast.walk(st) if isinstance(n, ast.Call)]:
+            for k in c.keywords:
+                if k.arg == 'out':
+                    for o in al(k.value):
+                        mutated.setdefault(o, c)
+        if isinstance(st, ast.Assign):
+            val = al(st.value)
+            for t in st.targets:
+                if isinstance(t, ast.Name):
+                    alias[t.id] = val
+                elif isinstance(t, ast.Subscript):
+                    for o in al(t.value):
+                        mutated.setdefault(o, st)
+        elif isinstance(st, ast.AugAssign):
+            if isinstance(st.target, ast.Name):
+                for o in al(st.target):
+                    mutated.setdefault(o, st)           # numpy arrays are updated in place; the name keeps its aliases
+            elif isinstance(st.target, ast.Subscript):
+                for o in al(st.target.value):
+                    mutated.setdefault(o, st)
+        elif isinstance(st, ast.Return) and st.value is not None:
+            got = al(st.value)
+            if got:
+                returned |= got
+                ret_node = st
+    bad = sorted(returned & set(mutated))
+    if bad:
+        o = bad[0]
+        r.violation('random_function: returned value aliases `%s`' % o, 'the function returns a view of `%s`, an object created once in gen_sample and '
+                    'captured by the closure, and writes into it in place on every call (`%s`): a value returned by an earlier evaluation '
+                    'changes when the function is evaluated again (f(x1) and f(x2) end up equal), so the drawn sample is not a fixed function'
+                    % (o, short(mutated[o], 70)), lib.loc(inner, ret_node), expected='return a fresh array (no out= buffer shared between calls)',
+                    found=short(ret_node.value, 80))
+    else:
+        r.ok('random_function: returned value', 'does not alias a captured object that the function writes in place', inner.loc)
 
 
 def _split_return(v):
@@ -621,6 +771,9 @@ _TL_DET0 = ("            if self.config['traceless']:\n"
             "                raise ConfigError(\"Unable to generate zero determinant traceless matrices\")\n")
 _CACHE_OLD = '        self.norm = RealInterval(self.config[\'norm\'])\n\n    def gen_sample(self):\n        """\n        Generates an array sample and returns it as a MathArray.\n\n        This calls generate_sample, which is the routine that should be subclassed if\n        needed, rather than this one.\n        """\n        array = self.generate_sample()\n        return MathArray(array)\n\n    def generate_sample(self):\n        """\n        Generates a random array of shape and norm determined by config. After\n        generation, the apply_symmetry and normalize functions are applied to the result.\n        These functions may be shadowed by a subclass.\n\n        If apply_symmetry or normalize raise the Retry exception, a new sample is\n        generated, and the procedure starts anew.\n\n        Returns a numpy array.\n        """\n        # Loop until a good sample is found\n        loops = 0\n        while loops < 100:\n            loops += 1\n\n            # Construct an array with entries in [-0.5, 0.5)\n            array = np.random.random_sample(self.config[\'shape\']) - 0.5\n            # Make the array complex if needed\n            if self.config[\'complex\']:\n                imarray'
 _CACHE_NEW = '        self.norm = RealInterval(self.config[\'norm\'])\n        self.complex = self.config[\'complex\']\n\n    def gen_sample(self):\n        """\n        Generates an array sample and returns it as a MathArray.\n\n        This calls generate_sample, which is the routine that should be subclassed if\n        needed, rather than this one.\n        """\n        array = self.generate_sample()\n        return MathArray(array)\n\n    def generate_sample(self):\n        """\n        Generates a random array of shape and norm determined by config. After\n        generation, the apply_symmetry and normalize functions are applied to the result.\n        These functions may be shadowed by a subclass.\n\n        If apply_symmetry or normalize raise the Retry exception, a new sample is\n        generated, and the procedure starts anew.\n\n        Returns a numpy array.\n        """\n        # Loop until a good sample is found\n        loops = 0\n        while loops < 100:\n            loops += 1\n\n            # Construct an array with entries in [-0.5, 0.5)\n            array = np.random.random_sample(self.config[\'shape\']) - 0.5\n            # Make the array complex if needed\n            if self.complex:\n                imarray'
+_RF_BODY_OLD = '        C = 2 * np.pi * np.random.rand(output_dim, num_terms, input_dim)\n\n        def random_function(*args):\n            """Function that generates the random values"""\n            # Check that the dimensions are correct\n            if len(args) != input_dim:\n                msg = "Expected {} arguments, but received {}".format(input_dim, len(args))\n                raise ConfigError(msg)\n\n            # Turn the inputs into an array\n            xvec = np.array(args)\n            # Repeat it into the shape of A, B and C\n            xarray = np.tile(xvec, (output_dim, num_terms, 1))\n            # Compute the output matrix\n            output = A * np.sin(B * xarray + C)\n            # Sum over the j and k terms\n            # We have an old version of numpy going here, so we can\'t use\n            # fullsum = np.sum(output, axis=(1, 2))\n            fullsum = np.sum(np.sum(output, axis=2), axis=1)\n\n            # Scale and translate to fit within center and amplitude\n            # (num_terms * input_dim sinusoids of magnitude at most 1 were summed)\n            fullsum = fullsum * self.config["amplitude"] / (num_terms * input_dim)\n            fullsum += self.config["center"]\n'
+_RF_BODY_SHARED_BUFFER = '        C = 2 * np.pi * np.random.rand(output_dim, num_terms, input_dim)\n        result = np.zeros(output_dim, dtype=A.dtype)\n\n        def random_function(*args):\n            """Function that generates the random values"""\n            # Check that the dimensions are correct\n            if len(args) != input_dim:\n                msg = "Expected {} arguments, but received {}".format(input_dim, len(args))\n                raise ConfigError(msg)\n\n            # Turn the inputs into an array\n            xvec = np.array(args)\n            # Repeat it into the shape of A, B and C\n            xarray = np.tile(xvec, (output_dim, num_terms, 1))\n            # Compute the output matrix\n            output = A * np.sin(B * xarray + C)\n            # Sum over the j and k terms\n            # We have an old version of numpy going here, so we can\'t use\n            # fullsum = np.sum(output, axis=(1, 2))\n            fullsum = np.sum(np.sum(output, axis=2), axis=1, out=result)\n\n            # Scale and translate to fit within center and amplitude\n            # (num_terms * input_dim sinusoids of magnitude at most 1 were summed)\n            fullsum *= self.config["amplitude"]\n            fullsum /= num_terms * input_dim\n            fullsum += self.config["center"]\n'
+_RF_BODY_INPLACE_FRESH = '        C = 2 * np.pi * np.random.rand(output_dim, num_terms, input_dim)\n\n        def random_function(*args):\n            """Function that generates the random values"""\n            # Check that the dimensions are correct\n            if len(args) != input_dim:\n                msg = "Expected {} arguments, but received {}".format(input_dim, len(args))\n                raise ConfigError(msg)\n\n            # Turn the inputs into an array\n            xvec = np.array(args)\n            # Repeat it into the shape of A, B and C\n            xarray = np.tile(xvec, (output_dim, num_terms, 1))\n            # Compute the output matrix\n            output = A * np.sin(B * xarray + C)\n            # Sum over the j and k terms\n            # We have an old version of numpy going here, so we can\'t use\n            # fullsum = np.sum(output, axis=(1, 2))\n            fullsum = np.sum(np.sum(output, axis=2), axis=1)\n\n            # Scale and translate to fit within center and amplitude\n            # (num_terms * input_dim sinusoids of magnitude at most 1 were summed)\n            fullsum *= self.config["amplitude"]\n            fullsum /= num_terms * input_dim\n            fullsum += self.config["center"]\n'
 _LOOP_HEAD = "        loops = 0\n        while loops < 100:\n            loops += 1\n"
 
 _TRI_OLD = "        if self.config['triangular'] == 'upper':\n            return np.triu(array)\n        elif self.config['triangular'] == 'lower':\n            return np.tril(array)\n        return array\n\n\n"
@@ -633,6 +786,9 @@ _LOOP_FOR_DISPATCH = "        for _ in range(100):\n            array = np.rando
 MUTANTS = [
     # D1
     Mutant('int-high-is-stop', SAMPLING, "high=self.config['stop'] + 1", "high=self.config['stop']", 'D1'),
+    Mutant('int-truncated-uniform-misses-stop', SAMPLING, "return np.random.randint(low=self.config['start'], high=self.config['stop'] + 1)",
+           "start, stop = self.config['start'], self.config['stop']\n        return start + int((stop - start) * np.random.random_sample())", 'D1',
+           note='random_sample() < 1: the upper endpoint is never drawn'),
     Mutant('int-low-plus-one', SAMPLING, "low=self.config['start'],", "low=self.config['start'] + 1,", 'D1'),
     Mutant('int-swap-removed', SAMPLING, _INT_CTOR, "        super(IntegerRange, self).__init__(config, **kwargs)\n", 'D1'),
     Mutant('int-swap-inverted', SAMPLING, "super(IntegerRange, self).__init__(config, **kwargs)\n        if self.config['start'] > self.config['stop']:",
@@ -660,6 +816,8 @@ MUTANTS = [
     Mutant('rf-nin-is-output-dim', SAMPLING, "random_function.nin = input_dim", "random_function.nin = output_dim", 'D2'),
     Mutant('rf-sum-over-outputs', SAMPLING, "np.sum(np.sum(output, axis=2), axis=1)", "np.sum(np.sum(output, axis=2), axis=0)", 'D2'),
     Mutant('rf-vector-for-one-output', SAMPLING, "if output_dim > 1 else fullsum[0]", "if output_dim >= 1 else fullsum[0]", 'D2'),
+    Mutant('rf-shared-output-buffer', SAMPLING, _RF_BODY_OLD, _RF_BODY_SHARED_BUFFER, 'D2',
+           note='np.sum(..., out=result) into a buffer allocated once per drawn function; MathArray(fullsum) is a view of it'),
     Mutant('rf-phase-redrawn-per-call', SAMPLING, "output = A * np.sin(B * xarray + C)", "output = A * np.sin(B * xarray + 2 * np.pi * np.random.rand(output_dim, num_terms, input_dim))", 'D2'),
     # D3
     Mutant('symmetric-minus', MATRIX, "working = array + array.transpose()", "working = array - array.transpose()", 'D3'),
@@ -717,6 +875,9 @@ BENIGN = [
     Benign('retry-for-range-narrow-try-isinstance-dispatch', MATRIX, _LOOP_OLD, _LOOP_FOR_DISPATCH),
     Benign('rf-shape-tuple-starred', SAMPLING, "A = np.random.rand(output_dim, num_terms, input_dim) / 2 + 0.5", "shape = (output_dim, num_terms, input_dim)\n        A = np.random.rand(*shape) / 2 + 0.5"),
     Benign('real-formula-from-the-top', SAMPLING, "return start + (stop - start) * np.random.random_sample()", "return stop - (stop - start) * (1 - np.random.random_sample())"),
+    Benign('int-truncated-uniform-correct', SAMPLING, "return np.random.randint(low=self.config['start'], high=self.config['stop'] + 1)",
+           "start, stop = self.config['start'], self.config['stop']\n        return start + int((stop - start + 1) * np.random.random_sample())"),
+    Benign('rf-in-place-arithmetic-on-a-fresh-array', SAMPLING, _RF_BODY_OLD, _RF_BODY_INPLACE_FRESH),
     Benign('randint-positional', SAMPLING, "np.random.randint(low=self.config['start'], high=self.config['stop'] + 1)", "np.random.randint(self.config['start'], 1 + self.config['stop'])"),
     Benign('rf-divisor-reordered', SAMPLING, '/ (num_terms * input_dim)', '/ input_dim / num_terms'),
     Benign('rf-scale-first', SAMPLING, 'fullsum = fullsum * self.config["amplitude"] / (num_terms * input_dim)', 'fullsum = self.config["amplitude"] / (input_dim * num_terms) * fullsum'),
